@@ -992,6 +992,7 @@ func (fr *Frame) pseudoSinkKind(kind string, in ssa.Instruction, args []TV, st *
 		cl.matched = true
 		ec := fr.evalCtx(st, fr.entry, in.Pos())
 		ec.thisCall = ev
+		ec.rangeIx = fr.currentRangeIx()
 		t, err := ec.evalClause(cl.Expr)
 		if err != nil {
 			c.stale = append(c.stale, fmt.Sprintf("%s:%d: %v", cl.File, cl.Line, err))
@@ -1045,6 +1046,7 @@ func (fr *Frame) pseudoSink(kind string, in ssa.Instruction, args []TV, st *Stat
 		cl.matched = true
 		ec := fr.evalCtx(st, fr.entry, in.Pos())
 		ec.thisCall = ev
+		ec.rangeIx = fr.currentRangeIx()
 		t, err := ec.evalClause(cl.Expr)
 		if err != nil {
 			c.stale = append(c.stale, fmt.Sprintf("%s:%d: %v", cl.File, cl.Line, err))
